@@ -42,10 +42,16 @@ def mk0(dt, ident):
     if k == 0:
         return mido.Message('note_on', channel=(n // 128) % 16, note=n % 128, time=dt)
     if k == 1:
-        return mido.Message('control_change', channel=(n // 128) % 16, control=n % 128, time=dt)
+        # the release of the very note that id - 1 (a note_on) strikes: on one tick the order
+        # attack, release must survive (a zero-length note)
+        return mido.Message('note_off' if n % 2 else 'note_on', channel=(n // 128) % 16, note=n % 128,
+                            velocity=0, time=dt)
     if k == 2:
         return mido.Message('pitchwheel', pitch=n % 8192, time=dt)
     if k == 3:
+        # text or track name (also the empty-looking one); the name of a track is a message like any other
+        if n % 3:
+            return mido.MetaMessage('track_name', name=str(n), time=dt)
         return mido.MetaMessage('text', text=str(n), time=dt)
     if k == 4:
         return mido.Message('sysex', data=[n % 128, (n // 128) % 128], time=dt)
@@ -61,14 +67,18 @@ def ident_of0(m):
     try:
         if t == 'end_of_track':
             return 0
-        if t == 'note_on':
+        if t == 'note_on' and m.velocity != 0:
             return 8 * (m.note + 128 * m.channel)
-        if t == 'control_change':
-            return 8 * (m.control + 128 * m.channel) + 1
+        if (t == 'note_off' or (t == 'note_on' and m.velocity == 0)):
+            if m.velocity != 0 or (t == 'note_off') != bool(m.note % 2):
+                return -1
+            return 8 * (m.note + 128 * m.channel) + 1
         if t == 'pitchwheel':
             return 8 * m.pitch + 2
         if t == 'text':
-            return 8 * int(m.text) + 3
+            return 8 * int(m.text) + 3 if int(m.text) % 3 == 0 else -1
+        if t == 'track_name':
+            return 8 * int(m.name) + 3 if int(m.name) % 3 else -1
         if t == 'sysex':
             return 8 * (m.data[0] + 128 * m.data[1]) + 4
         if t == 'aftertouch':
